@@ -34,6 +34,8 @@ def oracle(tier, rng, seeds):
     # published corners / edge points given back as they are, and points just inside them
     for q, c in geo_gens.inside_corner_points(drv, rng, 200 if tier == 'quick' else 6000):
         K.check_quantisation(drv.a5, q, _rr(c), fails, st); n += 1
+    for q0, r0 in (((-125.11916094236426, 46.766389527751706), 3), ((67.10721420146098, -1.1746807697173285), 25), ((-165.02605289145345, -52.755541033666866), 18)):
+        K.check_quantisation(drv.a5, q0, r0, fails, st); n += 1       # exact corners on a face seam on which the pinned tree failed (ac2f470)
     for p in geo_gens.points(drv, tier, rng, 400 if tier == 'quick' else 50000):
         K.check_quantisation(drv.a5, p, rng.randint(0, 29), fails, st); n += 1
         if len(fails) > 20:
